@@ -1,7 +1,7 @@
 import Heph.Proofs.TransJavaBasic
-import Heph.Proofs.TransJavaBalProgram
+import Heph.Proofs.TransJavaBalFull
 import Heph.Props.C14
-/-! # C02 — Java translations of valid programs compile with javac  (PARTIAL)
+/-! # C02 — Java translations of valid programs compile with javac  (PARTIAL: javac is observed)
 
 "javac accepts the emitted file" is an agreement with an external artefact: it is *observed* by
 `harness/check_C02.py` (javac run on every explored program), it is not a theorem, and there is
@@ -13,9 +13,15 @@ no Lean model of Java's static semantics.  What is logic is proved here, about
   ends in `_reset_state`, so a used translator is a fresh translator;
 * `javaText_shape` — package line, `class Main { static members }`, functional interfaces,
   then one text per top-level class declaration;
-* `javaText_balanced_partial` — parentheses, braces and square brackets of the emitted unit are
-  properly nested and all closed, for programs of the fragment `NodeOK` (the full statement
-  `javaText_balanced` is kept as a `def`);
+* `javaText_balanced_full : javaText_balanced` — parentheses, braces and square brackets of the
+  emitted unit are properly nested and all closed, for EVERY node kind (blocks with their
+  `Function0` lambda wrapping and `Type x_N = ` sugar, calls with vararg arrays, array expressions,
+  lambdas, methods and nested functions, classes with constructors and `super(...)` arguments
+  printed by a fresh translator, function references, …), every fuel, every translator state
+  reachable by earlier translations, under the hypotheses `EnvOK e`, `BrFree pkg`, `AtomsOKL decls`
+  (Boolean tests of `Spec/JavaBalance.lean`, evaluated by the harness on every explored program);
+  `javaText_balanced_partial` is the older variant for an expression fragment that needs no
+  hypothesis on the context and only *semantic* hypotheses on types (`TyOK`);
 * `verdict_batch_independent` — the javac diagnostics analysis attributes to a file in a batch
   what it attributes to it alone (re-export of C14). -/
 namespace Heph.Props.C02
@@ -95,32 +101,103 @@ example : ∃ m mm ns os, translate ⟨[]⟩ "src.p" [.classDecl "A" 0 true [] [
 
 /-! ## bracket balance
 
-`Balanced s` (`Proofs/TransJavaBal.lean`): a scanner with a stack of expected closers runs over
-the text, skipping every character that is not one of `( ) { } [ ]`, and ends with the empty
-stack.  Angle brackets are not part of the statement (`<`, `>` are also operators and `->`).
-Hypotheses on the atoms (`AtomsOK`, `EnvOK`): identifiers, literals and operator symbols contain
-none of the six characters (true of the generator's word pool, of numbers, of the operator table;
-a string or character literal containing a bracket is outside the theorem), parameter names are
-non-empty words, and every type that is printed has balanced printed forms (`TyOK`: names such as
-`Foo<Bar[], ? extends T>`). -/
+`Balanced s` (`Proofs/TransJavaBal.lean`, scanner in `Spec/JavaBalance.lean`): a scanner with a stack
+of expected closers runs over the text, skipping every character that is not one of `( ) { } [ ]`,
+and ends with the empty stack.  Angle brackets are not part of the statement (`<`, `>` are also
+operators and `->`).
 
-/-- FULL statement (not proved in full): for every program whose atoms are well formed and every
-context answering well-formed types, the emitted compilation unit is balanced. -/
+Hypotheses (all three are Boolean tests, `Spec/JavaBalance.lean`, so the harness evaluates them on
+every explored program and counts "covered by theorem" / "outside fragment"):
+* `AtomsOKL decls` (`atomsOKL`): every identifier, literal and operator symbol of the program contains
+  none of the six characters (true of the generator's word pool, of numbers, of the operator table; a
+  string or character literal containing a bracket is outside the theorem), parameter names are
+  non-empty words, the parameters of a function declaration are parameter declarations, and every
+  type mentioned anywhere in a node is well formed (`tyWF`: all names in the type tree — arguments,
+  bounds, constructors, supertypes — are bracket-free; array types print their `[]` themselves);
+* `EnvOK e` (`envOK`): every declaration stored in the context satisfies `atomsOK` (the translator
+  prints types it looks up there: `get_type_hint` for the `x_N` sugar and the `Function0<T>` wrapper,
+  the vararg parameter type of a called nested function);
+* `BrFree pkg`: the package name is bracket-free.
+
+(An earlier version of this file stated the hypothesis on the context as "`typeHint` answers a type
+with balanced printed forms for EVERY node and smart-cast stack"; that is not satisfiable — the hint
+of `new T()` is `T` for an arbitrary `T` — so the statement was vacuous.  The structural hypotheses
+above are satisfiable (examples below) and are what the proof needs: `typeHint_ok` derives the
+semantic fact from them, through `_comp_type`'s substitutions.) -/
+
+/-- FULL statement: for every program whose atoms are well formed, in every context of well-formed
+declarations, the emitted compilation unit is balanced. -/
 def javaText_balanced : Prop :=
   ∀ (e : Env) (pkg : String) (decls : List Node), EnvOK e → BrFree pkg → AtomsOKL decls →
     Balanced (translate e pkg decls)
 
-/-- PROVED PART: the statement for the fragment delimited by `NodeOK`
+/-- PROVED IN FULL (`Proofs/TransJavaBal{Ty,Hint,Inv,Expr,Block,Func,Class,Full}.lean`): induction on
+the fuel of `visit` with the invariant `VOK2` — every visit of a node with well-formed atoms, from a
+state whose collected `Main` members are neutral and whose smart-cast stack holds well-formed types,
+answers a neutral text (a text that leaves every scanner stack as it found it) and such a state —
+one lemma per visit method, then the assembly of `visit_program`. -/
+theorem javaText_balanced_full : javaText_balanced :=
+  fun e pkg decls he hp hd => (translateFrom_neutral_full e he pkg St.init decls stOK2_init hp hd).balanced
+
+/-- the same after any history of translations by the same translator object -/
+theorem javaText_balanced_history (hist : List (Env × String × List Node)) (e : Env) (pkg : String)
+    (decls : List Node) (he : EnvOK e) (hp : BrFree pkg) (hd : AtomsOKL decls) :
+    Balanced (translateFrom e pkg (stateAfter hist) decls) := by
+  rw [java_history_independent]; exact javaText_balanced_full e pkg decls he hp hd
+
+/-- a function type `Function1<Boolean, Boolean>` and an array type `Array<Boolean>` of the Java built-ins -/
+def exFn : Ty := .param "Function1" (.tcon "<class 'src.ir.types.FunctionType'>" "Function1"
+  [.tparam "A1" 0 none, .tparam "R" 0 none] [tyObject]) [tyBoolean, tyBoolean] [tyObject]
+def exArr : Ty := .param "Array" (.tcon clsArray "Array" [.tparam "T" 0 none] [tyObject]) [tyBoolean] [tyObject]
+
+/-- a context that knows a top-level function `h` (vararg) and the classes `A`, `B` -/
+def exEnv : Env := ⟨[
+  { ns := ["global"], kind := "funcs", name := "h",
+    val := some (.funcDecl "h" [.paramDecl "a" exArr true none] (some tyBoolean) (some tyBoolean) none false false [] 1) },
+  { ns := ["global"], kind := "decls", name := "h",
+    val := some (.funcDecl "h" [.paramDecl "a" exArr true none] (some tyBoolean) (some tyBoolean) none false false [] 1) },
+  { ns := ["global"], kind := "classes", name := "A", val := some (.classDecl "A" 0 false [] [] [] []) },
+  { ns := ["global"], kind := "classes", name := "B", val := some (.classDecl "B" 0 false [] [] [] []) }]⟩
+
+/-- `class A<T extends Boolean> extends B { public final Boolean f; constructor; method m with a block
+that declares a lambda, calls `h`, builds an array and ends in a conditional with a nested block }` -/
+def exProg : List Node :=
+  [.classDecl "A" 0 false
+     [.fieldDecl "f" tyBoolean true false false]
+     [.superInst (.simple "B" []) (some [.boolC "true"])]
+     [.funcDecl "m" [.paramDecl "p" tyBoolean false none] (some tyBoolean) (some tyBoolean)
+        (some (.block [
+            .varDecl "g" (.lambda "lambda_0" [.paramDecl "q" tyBoolean false none] (some tyBoolean)
+                (.variable "q") (some exFn)) true none (some exFn),
+            .call "h" [.callArg (.variable "p") none] none [] false false,
+            .varDecl "r" (.arrayE exArr 1 [.boolC "true"]) true none (some exArr),
+            .cond (.isE (.variable "p") tyBoolean false)
+              (.block [.funcRef "h" none (some exFn)] false) (.bottom (some tyBoolean)) (some tyBoolean)] true))
+        false false [] 0]
+     [.tparam "T" 0 (some tyBoolean)]]
+
+/-- the hypotheses of the full theorem are met by a non-trivial program (a class with a field, a
+superclass, a type parameter and a method whose block holds a lambda, a call, an array and a
+conditional with a nested block and a function reference) in a non-empty context -/
+example : Balanced (translate exEnv "src.p" exProg) :=
+  javaText_balanced_full exEnv "src.p" exProg (by decide) (by decide) (by decide)
+
+/-- … and by the empty context with a top-level function -/
+example : Balanced (translate ⟨[]⟩ "" [.funcDecl "main" [] (some tyVoid) (some tyVoid)
+    (some (.block [.call "f" [] none [] false false] true)) false false [] 1]) :=
+  javaText_balanced_full _ _ _ (by decide) (by decide) (by decide)
+
+/-- the hypotheses do exclude something: a string literal with a bracket, a type named `T(` -/
+example : ¬ AtomsOKL [.varDecl "x" (.stringC "a)") true none none] ∧
+    ¬ AtomsOKL [.varDecl "x" (.newE (.simple "T(" []) [] false) true none none] := by decide
+
+/-- OLDER VARIANT (kept): the statement for the fragment delimited by `NodeOK`
 (`Proofs/TransJavaBalVisit.lean`): top-level variable declarations, parameter / field / superclass
-headers, and the expression language made of constants (with number casts), variables (with `Main.`
-prefix and `_is` renaming), `null` with casts, binary operations, conditionals (all three
-`instanceof` smart-cast branches), `instanceof`, `new` (with diamond), field access, assignment and
-call arguments — for every context (no hypothesis on `e` is needed in the fragment), every fuel and
-the whole assembly of `visit_program` (package line, `class Main`, static members, functional
-interfaces, remaining declarations).  Missing for the full statement: the cases block (Function0
-lambda wrapping), function / lambda / class declarations, function references, array
-expressions and calls, which need `EnvOK` and the parameter-text lemmas (`paramText_ok`,
-`rsplit1L_word`, `lastWordL_word`, `neutral_replaceDots` are proved and wait for them). -/
+headers, and the expression language made of constants (with number casts), variables, `null` with
+casts, binary operations, conditionals, `instanceof`, `new`, field access, assignment, function
+references and call arguments — for EVERY context (no hypothesis on `e`) and with the weaker,
+semantic hypothesis `TyOK` on types (the printed forms are balanced, e.g. a classifier that is itself
+named `Foo[]`).  Everything else it does not cover is covered by `javaText_balanced_full`. -/
 theorem javaText_balanced_partial (e : Env) (pkg : String) (decls : List Node) (hp : BrFree pkg)
     (hd : NodesOK decls) : Balanced (translate e pkg decls) :=
   (translateFrom_neutral e pkg St.init decls stOK_init hp hd).balanced
